@@ -23,7 +23,7 @@ impl Prop for C12 {
         "C12"
     }
     fn rule(&self) -> String {
-        "Cases: histories of 0..30 (thorough 0..100) operations biased towards failing stores: resubmissions (duplicate), events resubmitted after their id/address was deleted, older versions at replaceable addresses (refused after the pre-removal scan ran), deletion requests with 1..4 tags mixing own / foreign / absent / malformed 'e' and 'a' targets and addresses whose d is too long for an LMDB key. Oracle: for every store that returns an error, the snapshot before equals the snapshot after (has_event, get_event_by_id bytes, event_is_deleted for every id ever mentioned; naddr_is_deleted_asof and replaceable lookups for every address mentioned; ~25-80 unlimited queries covering every index plan; all ten index entry counts; extra table rows). Fault injection ('or any other' error): one history in 33 (its first 12 operations) is also run in a child process under ptrace, once per chosen system call of the kinds ftruncate / pwrite64 / pwritev / writev / mremap / mmap / msync / fsync / fdatasync / lseek / pread64 made inside a step (up to 20 per history, evenly spread; thorough: one history in 13, up to 60), that one call failing with ENOSPC or EIO; if the interrupted store call then returns an error, the snapshot the child takes from its still open store object must equal the reference snapshot before the call. Non-trivial: a failing store of a kind-5 event with >= 2 tags, or of a replaceable event refused as replaced (i.e. a failure after the transaction already performed effects).".into()
+        "Cases: histories of 0..30 (thorough 0..100) operations biased towards failing stores: resubmissions (duplicate), events resubmitted after their id/address was deleted, older versions at replaceable addresses (refused after the pre-removal scan ran), deletion requests with 1..4 tags mixing own / foreign / absent / malformed 'e' and 'a' targets and addresses whose d is too long for an LMDB key. Oracle: for every store that returns an error, the snapshot before equals the snapshot after (has_event, get_event_by_id bytes, event_is_deleted for every id ever mentioned; naddr_is_deleted_asof and replaceable lookups for every address mentioned; ~25-80 unlimited queries covering every index plan; all ten index entry counts; extra table rows). Fault injection ('or any other' error): one history in 33 (its first 12 operations) is also run in a child process under ptrace, once per chosen system call of the kinds ftruncate / pwrite64 / pwritev / writev / mremap / mmap / msync / fsync / fdatasync / lseek / pread64 made inside a step (up to 20 per history, evenly spread; thorough: one history in 41, up to 40), that one call failing with ENOSPC or EIO; if the interrupted store call then returns an error, the snapshot the child takes from its still open store object must equal the reference snapshot before the call. Non-trivial: a failing store of a kind-5 event with >= 2 tags, or of a replaceable event refused as replaced (i.e. a failure after the transaction already performed effects).".into()
     }
     fn assumptions(&self) -> Vec<String> {
         vec!["event_bytes is not part of the snapshot: a failed store may leave orphan bytes in the event map, which no lookup reaches.".into()]
@@ -51,7 +51,7 @@ impl Prop for C12 {
             kind_weights: [2, 3, 4, 1, 1],
             ..EvCfg::default()
         };
-        (history(w, cfg, tier.pick(30, 100)), 0u8..3, prop_oneof![tier.pick(64, 24) => Just(0u16), 1 => Just(tier.pick(20u16, 60u16)), 1 => Just(tier.pick(21u16, 61u16))])
+        (history(w, cfg, tier.pick(30, 100)), 0u8..3, prop_oneof![tier.pick(64, 80) => Just(0u16), 1 => Just(tier.pick(20u16, 40u16)), 1 => Just(tier.pick(21u16, 41u16))])
             .prop_map(|(ops, n_extra, inject)| Case { ops, n_extra, inject })
             .boxed()
     }
